@@ -51,6 +51,8 @@ pub trait IdxSubject: Default + Clone + Debug + Send + 'static {
     fn s_index(&self, i: usize) -> usize;
     /// iterate (bounded), and also clone the iterator after `split` items and drain the clone.
     fn s_iter(&self, bound: usize, split: usize) -> (Vec<usize>, Vec<usize>);
+    /// nth / skip / step_by agree with stepping
+    fn s_iter_laws(&self, seq: &[usize]) -> Result<(), String>;
     fn s_heap(&self) -> Vec<(usize, usize)>;
     fn s_serde(&self) -> Option<Self>;
 }
@@ -97,6 +99,9 @@ impl IdxSubject for Stride {
             }
         }
         (a, b)
+    }
+    fn s_iter_laws(&self, seq: &[usize]) -> Result<(), String> {
+        crate::engine::iter_laws(&self.iter(), seq.len(), &|x, j| if x == seq[j] { Ok(()) } else { Err(format!("yields {x}, pushed {}", seq[j])) })
     }
     fn s_heap(&self) -> Vec<(usize, usize)> {
         vec![]
@@ -152,6 +157,10 @@ macro_rules! impl_subject {
                     }
                 }
                 (a, b)
+            }
+            fn s_iter_laws(&self, seq: &[usize]) -> Result<(), String> {
+                let it = flatcontainer::impls::index::IndexContainer::<usize>::iter(self);
+                crate::engine::iter_laws(&it, seq.len(), &|x, j| if x == seq[j] { Ok(()) } else { Err(format!("yields {x}, pushed {}", seq[j])) })
             }
             fn s_heap(&self) -> Vec<(usize, usize)> {
                 let mut v = Vec::new();
@@ -319,6 +328,9 @@ impl<C: IdxSubject> IdxMachine<C> {
         if b != seq[split..] {
             return Err(format!("iterator cloned after {split} items yields {:?}, expected {:?}", short(&b), short(&seq[split..])));
         }
+        guard(|| c.s_iter_laws(seq))
+            .map_err(|p| format!("iterator method panicked: {p}; sequence {:?}", short(seq)))?
+            .map_err(|e| format!("iter(): {e} (sequence {:?})", short(seq)))?;
         Ok(())
     }
 
